@@ -361,6 +361,18 @@ func TestC11(t *testing.T) {
 					}
 				}
 			},
+			// the node answers consensus queries in the middle of an epoch (statistics of the running epoch, weights, producer
+			// schedule: what embedded.pillar.getAll makes it compute); a node that was never asked must credit the same amounts
+			"readStats": func() {
+				_ = sim.ConsensusSummary(h.A)
+				c.Class("producer-answers-consensus-queries-mid-epoch")
+			},
+			// a pillar that has taken part in elections leaves in the middle of an epoch
+			"timedRevoke": func() {
+				if c.Weighted("c11.timedRevoke", 2, 1) == 1 {
+					h.ActTimedPillarRevoke()
+				}
+			},
 			"skipFar": func() {
 				if c.Weighted("skipFar.do", 3, 1) == 1 {
 					missed = true
